@@ -12,7 +12,7 @@ so k pending polls equal one for every k (induction) and the budget-<=2 explorat
 every finite budget (A-HW-LIVE).  Termination is relative to A-HW-LIVE."""
 from pyvc.cdef import Contract, Lemma
 from pyvc.schema import Int, Bool, Const, Bytes, ByteArray, OneOf, ListOf
-from pyvc.specrt import implies, ite
+from pyvc.specrt import implies, ite, oracle_int, require, assume, same_object
 from spec.rf24_state import rf24_schema, inv, view_cfg
 from spec.c10 import view_io
 from spec.c01 import tx_payload
@@ -166,4 +166,79 @@ CONTRACTS = [
     Contract("C02.resend", "rf24:RF24.resend", {"self": rf24_schema(p0=Const(None), env=ENV), "send_only": Bool()},
              requires=[R + "req_resend"], ensures=[("fate", R + "ens_resend"), ("send_inv", R + "ens_send_inv")],
              raises=(), policy=INL, props=["C02"], max_paths=20000, timeout_ms=60000),
+]
+
+
+# ---- send(list/tuple): one result per payload, in order (recursion by contract)
+
+def abs_send_one(self, buf, ask_no_ack, force_retry, send_only):
+    """contract of send() for ONE payload as proved by C02.send[*]: from send_pre to send_inv, the
+    configuration untouched; ghost record of the call and of the value it returned"""
+    require(not isinstance(buf, (list, tuple)), "send: a single payload")
+    require(req_send(self, buf, ask_no_ack, force_retry, send_only), "send: send_pre; 1..32 bytes when dynamic payloads are on")
+    self.s_bufs.append(bytes(buf))
+    self.s_noack.append(ask_no_ack)
+    self.s_retry.append(force_retry)
+    self.s_only.append(send_only)
+    hw = self._spi.hw
+    self._in[0] = oracle_int(0, 255)
+    hw.tx_n = oracle_int(0, 3)
+    hw.rx_n = oracle_int(0, 3)
+    hw.reg[7] = oracle_int(0, 7) * 16
+    hw.reg[8] = oracle_int(0, 255)
+    hw.ce = oracle_int(0, 1) == 1
+    hw.inflight = False
+    for k in range(3):
+        hw.tx_ackpipe[k] = oracle_int(-1, 5)
+    assume(send_inv(self))
+    kind = oracle_int(0, 2)
+    if kind == 0:
+        r = False
+    elif kind == 1:
+        r = True
+    else:
+        cells = []
+        for k in range(32):
+            cells.append(oracle_int(0, 255))
+        r = bytearray(bytes(cells)[:oracle_int(1, 32)])
+    self.s_res.append(r)
+    return r
+
+
+def req_send_list(self, buf, ask_no_ack, force_retry, send_only):
+    hw = self._spi.hw
+    dyn = (hw.reg[0x1C] & 1) != 0
+    ok = send_pre(self) and 0 <= force_retry and force_retry <= 1000
+    for b in buf:
+        ok = ok and implies(dyn, 1 <= len(b) and len(b) <= 32)
+    return ok
+
+
+def ens_send_list(self, old_buf, buf, ask_no_ack, force_retry, send_only, result, exc):
+    """one send() per element, in order, each with that element and the caller's flags; the result
+    is the list of what those calls returned, in order; the caller's sequence is untouched"""
+    n = len(old_buf)
+    if exc is not None:
+        return False
+    ok = (isinstance(result, list) and len(result) == n and len(self.s_bufs) == n and len(buf) == n
+          and implies(n > 0, send_inv(self)))
+    for j in range(n):
+        ok = (ok and self.s_bufs[j] == bytes(old_buf[j]) and bytes(buf[j]) == bytes(old_buf[j]) and same_object(result[j], self.s_res[j])
+              and self.s_noack[j] == ask_no_ack and self.s_retry[j] == force_retry and self.s_only[j] == send_only)
+    return ok
+
+
+SREC = {"s_bufs": Const([]), "s_noack": Const([]), "s_retry": Const([]), "s_only": Const([]), "s_res": Const([])}
+POL_LIST = dict(INL)
+POL_LIST["rf24:RF24.send"] = "ref:" + R + "abs_send_one"
+from pyvc.schema import TupleOf  # noqa: E402
+ELEM = OneOf(Bytes(0, 40), ByteArray(0, 40))
+CONTRACTS += [
+    Contract("C02.send.list[%s,n=%d]" % (kind, n), "rf24:RF24.send",
+             {"self": rf24_schema(p0=Const(None), env=ENV, extra=SREC),
+              "buf": (ListOf if kind == "list" else TupleOf)([ELEM for _ in range(n)]),
+              "ask_no_ack": Bool(), "force_retry": Int(0, 1000), "send_only": Bool()},
+             requires=[R + "req_send_list"], ensures=[("one_result_per_payload_in_order", R + "ens_send_list")],
+             raises=(), policy=POL_LIST, props=["C02"], replayable=False)
+    for kind, n in (("list", 0), ("list", 1), ("list", 2), ("list", 3), ("tuple", 2))
 ]
